@@ -89,6 +89,23 @@ M = {
  "c3": ("dir.X509TrustStoreDir appends to a shared pre-sized slice (seeded C03-8)", [("dir/path.go",
      "\tpathItems := []string{TrustStoreDir, \"x509\"}\n\tpathItems = append(pathItems, items...)\n\treturn path.Join(pathItems...)\n}",
      "\treturn path.Join(append(x509TrustStoreRoot, items...)...)\n}\n\nvar x509TrustStoreRoot = append(make([]string, 0, 5), TrustStoreDir, \"x509\")")]),
+ # --- round 5: spellings of the registry / artifact path; store names differing in letter case
+ "p1": ("registry scopes matched case-insensitively", [(OCI, "\t\t} else if slices.Contains(policyStatement.RegistryScopes, artifactPath) {",
+     "\t\t} else if slices.ContainsFunc(policyStatement.RegistryScopes, func(s string) bool { return strings.EqualFold(s, artifactPath) }) {"),
+     (OCI, "import (\n", "import (\n\tstdslices \"slices\"\n"),
+     (OCI, "slices.ContainsFunc(", "stdslices.ContainsFunc(")]),
+ "p2": ("default https port stripped from the artifact path before matching", [(OCI, "\tartifactPath := artifactReference[:i]\n",
+     "\tartifactPath := strings.Replace(artifactReference[:i], \":443/\", \"/\", 1)\n")]),
+ "p3": ("docker.io rewritten to index.docker.io before matching", [(OCI, "\tartifactPath := artifactReference[:i]\n",
+     "\tartifactPath := artifactReference[:i]\n\tif strings.HasPrefix(artifactPath, \"docker.io/\") {\n\t\tartifactPath = \"index.\" + artifactPath\n\t}\n")]),
+ "p4": ("a tag in front of the digest is cut off (reference accepted)", [(OCI, "\tartifactPath := artifactReference[:i]\n",
+     "\tartifactPath := artifactReference[:i]\n\tif j := strings.LastIndex(artifactPath, \":\"); j > strings.LastIndex(artifactPath, \"/\") {\n\t\tartifactPath = artifactPath[:j]\n\t}\n")]),
+ "k1": ("processed-store set keyed by the lower-cased value (seeded C03-12)", [
+     (H, "\t\tif processedStoreSet.Contains(trustStore) {", "\t\tif processedStoreSet.Contains(strings.ToLower(trustStore)) {"),
+     (H, "\t\tprocessedStoreSet.Add(trustStore)\n", "\t\tprocessedStoreSet.Add(strings.ToLower(trustStore))\n")]),
+ "k2": ("the real store lower-cases the store name before resolving the directory", [(TS,
+     "SysPath(dir.X509TrustStoreDir(string(storeType), namedStore))", "SysPath(dir.X509TrustStoreDir(string(storeType), strings.ToLower(namedStore)))"),
+     (TS, "import (\n", "import (\n\t\"strings\"\n")]),
  # --- tie to the translated source: property-breaking edits inside each translated function
  #     (besides m1 m2 m3 m8 m9 m11 m12 m16 m21 above, which sit in the same functions)
  "t1": ("isTSATrustStoreInPolicy: comparison reversed", [(H, "if truststore.Type(storeType) == truststore.TypeTSA {", "if truststore.Type(storeType) != truststore.TypeTSA {")]),
